@@ -232,3 +232,9 @@ impl FileIo {
   weaken_thunk_patterns
 @*/
 /*@end*/
+/*@fn lang/dynamics/src/impls.rs :: fn io_read
+  plain
+  vec_as_slice args
+  weaken_thunk_patterns
+@*/
+/*@end*/
